@@ -330,3 +330,54 @@ class CFG:
             else:
                 parts.append(f"{getattr(n.ast, 'lineno', '?')}:{head(n.ast)[:50]}")
         return " -> ".join(parts)
+
+
+def assigned_names(stmt):
+    """Names (re)bound by a simple statement / compound header."""
+    out = set()
+
+    def tgt(t):
+        if isinstance(t, ast.Name):
+            out.add(t.id)
+        elif isinstance(t, (ast.Tuple, ast.List)):
+            for x in t.elts:
+                tgt(x.value if isinstance(x, ast.Starred) else x)
+
+    if isinstance(stmt, ast.Assign):
+        for t in stmt.targets:
+            tgt(t)
+    elif isinstance(stmt, (ast.AnnAssign, ast.AugAssign)):
+        tgt(stmt.target)
+    elif isinstance(stmt, (ast.For, ast.AsyncFor)):
+        tgt(stmt.target)
+    elif isinstance(stmt, (ast.With, ast.AsyncWith)):
+        for it in stmt.items:
+            if it.optional_vars is not None:
+                tgt(it.optional_vars)
+    elif isinstance(stmt, ast.ExceptHandler) and stmt.name:
+        out.add(stmt.name)
+    elif isinstance(stmt, (ast.FunctionDef, ast.ClassDef)):
+        out.add(stmt.name)
+    return out
+
+
+def reaching_defs(g: CFG, var):
+    """IN sets of reaching definitions of `var`: node -> set of defining CFG nodes ('entry' node = parameter/none)."""
+    defs = {n for n in g.nodes if n.ast is not None and n.kind in ("stmt", "loop", "with_enter", "handler")
+            and var in assigned_names(n.ast)}
+    IN = {n: set() for n in g.nodes}
+    OUT = {n: set() for n in g.nodes}
+    OUT[g.entry] = {g.entry}
+    work = list(g.nodes)
+    while work:
+        n = work.pop()
+        i = set()
+        for p, _lab in g.pred[n]:
+            i |= OUT[p]
+        IN[n] = i
+        o = {n} if n in defs else (i if n is not g.entry else {g.entry})
+        if o != OUT[n]:
+            OUT[n] = o
+            for s, _lab in g.succ[n]:
+                work.append(s)
+    return IN
